@@ -29,6 +29,8 @@ def build_program(bdir, name, init='pattern'):
     os.makedirs(d, exist_ok=True)
     inc = ['-I' + os.path.join(core.REPO, 'include'), '-I' + os.path.join(core.REPO, 'examples')]
     san = [s.replace('=pattern', '=' + init) for s in SAN]
+    if init == 'none':
+        san = [x for x in san if 'trivial-auto-var-init' not in x]      # locals keep whatever the stack held: stale data persists between calls
     if init == 'zero':
         san.append('-enable-trivial-auto-var-init-zero-knowing-it-will-be-removed-from-clang')
     base = ['clang', '-std=gnu99', '-O1', '-g', '-w'] + san + inc
